@@ -7,6 +7,6 @@ Extraction "model_dist.ml"
   mkPkg pk forward reverse seg pairs_ok sizes_ok in_range fwd_ok rev_ok reverse_sym expected_wires
   owner group_by_owner requests_to build_pkg build_world
   coo_to_csr csr_to_coo q_csr_spmv q_csr_spmv_append q_csr_mult_T q_csr_residual
-  mkTap mkTapW tap_forward tap_fwd_ok
+  mkTap mkTapW tap_forward tap_fwd_ok tap_reverse tap_rev_ok
   phases_ok trace_ok dests_in_rangeb Barrier EvBarrier
   q_assemble_all q_par_mult q_par_mult_append q_par_residual q_par_mult_T rs_colmap.
